@@ -65,6 +65,19 @@ fn lossy_find_match_win10() {
     assert!(is_first_argmin(&p.0, c, 0, 16, i), "Palette::find_match(WIN10) is the lowest-index nearest entry");
 }
 
+/// ties go to the lowest index: a palette whose sixteen entries are all the same colour maps
+/// every input to entry 0 (counterexample source for the tie-break clause of verus:lossy::find_match)
+#[cfg_attr(kani, kani::proof, kani::unwind(17))]
+#[cfg_attr(not(kani), test)]
+fn lossy_find_match_all_equal() {
+    // one concrete repeated entry, one symbolic channel of the input: enough to expose a wrong tie-break
+    let e = RgbColor(10, 20, 30);
+    let p = crate::palette::Palette([e; 16]);
+    let c = RgbColor(vk::any_u8(), 20, 30);
+    assert!(p.find_match(c) == AnsiColor::Black, "when entries repeat, the lowest index wins");
+    assert!(crate::rgb_to_ansi(c, p) == AnsiColor::Black, "rgb_to_ansi: when entries repeat, the lowest index wins");
+}
+
 /// conversions: already-target colours unchanged, indices 0-15 are the palette (complete)
 #[cfg_attr(kani, kani::proof)]
 #[cfg_attr(not(kani), test)]
